@@ -5,7 +5,7 @@ import nets
 
 PID = "C15"
 THEOREMS = ["adjust_tree", "adjust_conforming_fixed", "adjust_idempotent", "fix1d_length", "fix1d_identity_on_sorted",
-            "fix1d_contract_bounded", "dig_d4_spec"]
+            "fix1d_contract", "fix1d_contract_all", "adjust_elevation_spec", "fix1d_contract_bounded", "dig_d4_spec"]
 RULE = ("1-D fixer dem._adjust_elevation on ALL integer profiles of length <= 6 over {0..3} (<= 7 over {0..3} thorough) "
         "and random profiles to length 30 with plateaus / repeated pits, int and float dtypes; dem.adjust_elevation on "
         "loop-free closed graphs with n <= 4 cells x elevations over {0,1,2} and random forests to 60 cells, every "
@@ -19,9 +19,8 @@ RULE = ("1-D fixer dem._adjust_elevation on ALL integer profiles of length <= 6 
         "call; non-trivial = the operation changed at least one cell")
 ASSUMPTIONS = ["elevations are integers in the model; float32/float64 runs use integer-valued or dyadic elevations, for "
                "which every sum, difference and comparison of the float code is exact",
-               "the 1-D contract K of the faithful fixer model (output non-increasing, last value kept, within range) is "
-               "proved for all profiles only in part (identity on sorted profiles); K on arbitrary profiles is checked by "
-               "kernel evaluation for all profiles up to a stated bound and by this correspondence",
+               "the 1-D contract K of the faithful fixer model is proved for all profiles (fix1d_contract); the bounded kernel "
+               "evaluation is kept as an independent cross-check",
                "dig_4connectivity is modelled on networks whose links are D8 neighbours (what FlwdirRaster d8/ldd holds)"]
 
 
